@@ -200,3 +200,98 @@ fn c14_htyp_parse_all() {
         Err(_) => { assert!(false); }
     }
 }
+
+// ---- function contracts (specs/kani/contracts.toml) and their proofs -----------------------
+
+pub fn post_control_value(c: &ControlType, r: u8) -> bool {
+    match c {
+        ControlType::Request => r == 1,
+        ControlType::Response => r == 2,
+        ControlType::Unknown(n) => r == *n,
+    }
+}
+pub fn post_control_from_value(t: u8, r: &ControlType) -> bool {
+    match r {
+        ControlType::Request => t == 1,
+        ControlType::Response => t == 2,
+        ControlType::Unknown(n) => *n == t && t != 1 && t != 2,
+    }
+}
+/// "An argument typed bool or 32/64-bit float that carries a value of another kind fails"
+pub fn post_arg_valid(a: &Argument, r: bool) -> bool {
+    let want = match a.type_info.kind {
+        TypeInfoKind::Bool => matches!(a.value, Value::Bool(_)),
+        TypeInfoKind::Float(FloatWidth::Width32) => matches!(a.value, Value::F32(_)),
+        TypeInfoKind::Float(FloatWidth::Width64) => matches!(a.value, Value::F64(_)),
+        _ => true,
+    };
+    r == want
+}
+pub fn hdr_len_of(h: &StandardHeader) -> u16 {
+    4 + (if h.ecu_id.is_some() { 4 } else { 0 }) + (if h.session_id.is_some() { 4 } else { 0 }) + (if h.timestamp.is_some() { 4 } else { 0 }) + (if h.has_extended_header { 10 } else { 0 })
+}
+
+fn any_control_type() -> ControlType {
+    match kani::any::<u8>() % 3 {
+        0 => ControlType::Request,
+        1 => ControlType::Response,
+        _ => ControlType::Unknown(kani::any()),
+    }
+}
+
+#[kani::proof_for_contract(crate::dlt::ControlType::value)]
+fn c14_control_value_contract() {
+    let c = any_control_type();
+    let _ = c.value();
+}
+#[kani::proof_for_contract(crate::dlt::ControlType::from_value)]
+fn c14_control_from_value_contract() {
+    let _ = ControlType::from_value(kani::any());
+}
+/// value / from_value are inverse on every byte (the id byte of a control message survives
+/// parse -> write and write -> parse)
+#[kani::proof]
+fn c14_control_value_roundtrip() {
+    let t: u8 = kani::any();
+    assert!(ControlType::from_value(t).value() == t);
+}
+#[kani::proof_for_contract(crate::dlt::TypeLength::width_in_bytes)]
+fn c14_type_length_width_contract() {
+    let _ = super::c18::any_type_length().width_in_bytes();
+}
+#[kani::proof_for_contract(crate::dlt::FloatWidth::width_in_bytes)]
+fn c14_float_width_contract() {
+    let _ = super::c18::any_float_width().width_in_bytes();
+}
+#[kani::proof_for_contract(crate::dlt::float_width_to_type_length)]
+fn c14_float_width_to_type_length_contract() {
+    let _ = float_width_to_type_length(super::c18::any_float_width());
+}
+#[kani::proof_for_contract(crate::dlt::StandardHeader::overall_length)]
+fn c14_overall_length_contract() {
+    let h = StandardHeader {
+        version: kani::any(),
+        endianness: super::gen::any_endianness(),
+        has_extended_header: kani::any(),
+        message_counter: kani::any(),
+        ecu_id: if kani::any() { Some(String::new()) } else { None },
+        session_id: if kani::any() { Some(kani::any()) } else { None },
+        timestamp: if kani::any() { Some(kani::any()) } else { None },
+        payload_length: kani::any(),
+    };
+    let _ = h.overall_length();
+}
+
+/// C15: "An argument typed bool or 32/64-bit float that carries a value of another kind fails
+/// the validity check" -- contract of Argument::valid over every kind x every value variant
+#[kani::proof_for_contract(crate::dlt::Argument::valid)]
+fn c15_valid_contract() {
+    let a = Argument {
+        type_info: TypeInfo { kind: super::c18::any_kind(), coding: super::c18::any_coding(), has_variable_info: kani::any(), has_trace_info: kani::any() },
+        name: None,
+        unit: None,
+        fixed_point: None,
+        value: super::c18::any_value_variant(),
+    };
+    let _ = a.valid();
+}
